@@ -1,6 +1,7 @@
 import Lean.Data.Json
 import ExecModel.Cmd
 import ExecModel.Launcher
+import ExecModel.Props.C16
 /-!
   `modeld` — line protocol driver: one JSON object per line in, one JSON value per line out.
   Every request carries `"op"`.  Anything not understood yields `{"error": "bad-op"}`; nothing is
@@ -73,6 +74,24 @@ def cmdOps (op : String) (j : Json) : Except String (Option Json) := do
     | none => pure (some Json.null)
     | some (r, cmd) => pure (some (Json.mkObj [("req", Json.mkObj [("procs", jTok r.procs),
         ("oversub", Json.bool r.oversub)]), ("cmd", jToks cmd)]))
+  | "srun_spec_ok" =>
+    -- SPEC oracle on an argv produced by the implementation: does srun understand it as `r`?
+    let r ← srunReq j
+    let argv := (← getStrList j "argv").map tok
+    let cmd := (← getStrList j "cmd").map tok
+    let dom := decide (∀ t ∈ r.extra, C16.Opaque t) && (match cmd with | c :: _ => decide (C16.IsCmd c) | [] => false)
+    pure (some (Json.mkObj [("in_domain", Json.bool dom),
+      ("ok", Json.bool (Launcher.srunParse argv == some (C16.reqOf r, cmd)))]))
+  | "mpi_spec_ok" =>
+    let cores ← getNat j "cores"
+    let o ← getBool j "oversub"
+    let argv := (← getStrList j "argv").map tok
+    let cmd := (← getStrList j "cmd").map tok
+    let dom := match cmd with | c :: _ => decide (C16.IsMpiCmd c) | [] => false
+    let expect : Launcher.MpiReq := if cores = 1 then { procs := "1".toList, oversub := false }
+            else { procs := natStr cores, oversub := o }
+    pure (some (Json.mkObj [("in_domain", Json.bool dom),
+      ("ok", Json.bool (Launcher.mpiParse argv == some (expect, cmd)))]))
   | "classify" =>
     let t := tok (← getStr j "tok")
     let k := match Launcher.classify t with
